@@ -48,7 +48,7 @@ import json,sys
 ID,X,SRC,D,tname,run=sys.argv[1:]
 try: meta=json.load(open(f"{SRC}/{X}.meta.json"))
 except Exception as e: meta={"note":"agent meta unreadable: %s"%e}
-det=[l.strip() for l in open(f"{D}/detect.txt") if l.strip()]
+det=[l.strip() for l in open(f"{D}/detect.txt", errors='replace') if l.strip()]
 out={"breaks_property":ID,"source":"independent sub-agent given only the property text and a scratch worktree",
  "summary":meta.get("summary"),"needs_to_manifest":meta.get("needs_to_manifest"),"why_existing_tests_pass":meta.get("why_tests_pass"),
  "confirmed":{"how":"scratch worktree of /repo HEAD: demo test passes on the clean tree; with patch.diff applied `go build ./...` ok, the full existing suite (go test -vet=off -count=1 ./...) passes and the demo fails",
